@@ -107,12 +107,18 @@ NOSTD_PRELUDE = "#![allow(unused, non_snake_case, non_camel_case_types, dead_cod
 def render_src(src, nostd=False):
     """-> Rust source of one module file holding the declaration."""
     items, consts, parts = [], [], []
+    is_const = any(b["bk"] == "const_fn" for b in src["blocks"])
     for b in src["blocks"]:
         bk = b["bk"]
         if bk == "sanitize":
             sans = []
             for s in b["san"]:
-                if s["w"] == "with":
+                if s["w"] == "with" and is_const and src["fam"] in ("int", "float"):
+                    # inside a `const fn` only a `const fn` path can be called, not a closure
+                    if "const fn cid" not in "".join(items):
+                        items.append("const fn cid(v: %s) -> %s { v }" % (src["ty"], src["ty"]))
+                    sans.append("with = cid")
+                elif s["w"] == "with":
                     sans.append("with = %s" % ident_closure(src["fam"], src["ty"]))
                 else:
                     sans.append(s["w"])
